@@ -92,6 +92,47 @@ def same_outcome(a, b):
     return a[0] != "val" or abs(a[1] - b[1]) <= SLACK * max(1.0, abs(b[1]))
 
 
+def parse_outcome_q(txt):
+    """QPanic | QNaN | QInf | QVal q  (q printed as `3 # 7`, `(-3 # 7)`, `0`, `-2` ...)  ->  ('panic',) ... ('val', Fraction)"""
+    txt = txt.strip()
+    if txt.startswith("QVal"):
+        body = txt[4:].replace("(", " ").replace(")", " ").strip()
+        m = re.fullmatch(r"(-?\d+)\s*(?:#\s*(\d+))?", body)
+        return ("val", Fraction(int(m.group(1)), int(m.group(2) or 1))) if m else None
+    return {"QPanic": ("panic",), "QNaN": ("nan",), "QInf": ("inf",)}.get(txt)
+
+
+def coq_edge(ctx, o, cid, txt):
+    """outcome of Model/C09_Total.v (executable twin, zero delay) against hom_rate(tau = 0) and the head of hom_rate_series"""
+    m = re.match(r"\((Q(?:Panic|NaN|Inf|Val [^,]*)), (SQPanic|SQOk \[(.*)\])\)$", txt or "")
+    if not m:
+        unchecked_eval(ctx, "C09", cid)
+        return
+    want = parse_outcome_q(m.group(1))
+    got = observed_outcome(o["single0"])
+    ok = want is not None and want[0] == got[0] and (want[0] != "val" or abs(Fraction(got[1]) - want[1]) <= Fraction(1, 10**12))
+    if m.group(2) == "SQPanic":
+        oks = isinstance(o["series"], dict)
+        wants = "SQPanic"
+    else:
+        items = [x.strip() for x in m.group(3).split(";") if x.strip()]
+        wants = [parse_outcome_q(x) for x in items]
+        if isinstance(o["series"], dict):
+            oks = False
+        elif not wants:
+            oks = len(o["series"]) == 0
+        else:
+            g0 = observed_outcome(o["series"][0])
+            oks = len(o["series"]) >= 1 and wants[0] is not None and wants[0][0] == g0[0] and (g0[0] != "val" or abs(Fraction(g0[1]) - wants[0][1]) <= Fraction(1, 10**12))
+    if ok and oks:
+        ctx.cov["discharged"] += 1
+        return
+    ctx.case_failures.append({"case": cid})
+    ctx.violation("S4", f"total model (Coq, zero delay) {m.group(1)} / {m.group(2)[:60]} vs hom_rate {got} / hom_rate_series {o['series'] if isinstance(o['series'], dict) else [observed_outcome(x) for x in o['series']][:1]} "
+                        f"(case {o['label']}, {o['cols']}x{o['rows']}, slices {len(o['fre'])}, {len(o['gre'])})", {"kind": "total_model", "label": o["label"]},
+                  {"label": o["label"], "cols": o["cols"], "rows": o["rows"], "model": txt, "single0": o["single0"], "series": o["series"]}, found_input=False)
+
+
 def edge_oracle(ctx, o):
     ctx.seen(("edge", o["label"], o["cols"], o["rows"], tuple(o["fre"][:4])))
     ctx.count(f"edge:{o['label']}")
@@ -259,6 +300,12 @@ def oracle(ctx, obs):
             if o["symmetric"] and not o["swapped_is_transpose"]:
                 ctx.violation("S5", f"symmetric axes: jsa(wi, ws) on the grid is not the transposed jsa_range array ({o['setup']})",
                               {"kind": "swapped_not_transpose", "setup": o["setup"]}, rep0, found_input=False)
+            if "dt_indep" in o:
+                dti, dtr = f64_of_hex(o["dt_indep"]), f64_of_hex(o["dt"])
+                if not abs(dti - dtr) <= 1e-9 * max(abs(dti), abs(dtr), 1e-15):
+                    ctx.violation("S5", f"hom_time_delay = {dtr!r} s differs from idler transit - signal transit + (z_i - z_s)/c = {dti!r} s computed from group indices, "
+                                        f"directions, crystal length and waist positions ({o['setup']})", {"kind": "time_delay", "setup": o["setup"]},
+                                  dict(rep0, hom_time_delay=dtr, expected=dti), found_input=False)
             dt, vdt, v = f64_of_hex(o["dt"]), f64_of_hex(o["vis_setup"][0]), f64_of_hex(o["vis_setup"][1])
             want = (0.5 - f64_of_hex(o["rate_dt_array"])) / 0.5
             if not (vdt == dt and fin(v) and abs(v - want) <= SLACK):
@@ -274,7 +321,7 @@ def oracle(ctx, obs):
                                   {"kind": "setup_value0", "setup": o["setup"]}, dict(rep0, rate=ss[0], expected=float(x)))
 
 
-IMPORTS = "From Coq Require Import QArith Qabs List ZArith Bool.\nFrom SpdVerif Require Import Model.FinSum Model.Hom Model.Hom2 Model.C10_Pyth.\nImport ListNotations.\n"
+IMPORTS = "From Coq Require Import QArith Qabs List ZArith Bool.\nFrom SpdVerif Require Import Model.FinSum Model.Hom Model.Hom2 Model.C10_Pyth Model.C09_Total.\nImport ListNotations.\n"
 DEFS = """
 Definition chk0 (N : nat) (f g : list (cx Q)) (series0 single0 normed0 norm tol : Q) :=
   let r := hom_rate_Q0 N f g in
@@ -283,6 +330,9 @@ Definition chk0 (N : nat) (f g : list (cx Q)) (series0 single0 normed0 norm tol 
 """
 
 DEFS += """
+Definition edge0 (N : nat) (f g : list (cx Q)) (norm : option Q) (ntaus : nat) :=
+  (hom_rate_total_Q N f g (fun _ => cone QOps) norm,
+   hom_rate_series_total_Q N f g (match ntaus with O => nil | S _ => (fun _ => cone QOps) :: nil end)).
 Definition chkp (n : nat) (f g : list (cx Q)) (m0 k r : Z) (rate tol : Q) :=
   let x := hom_rate_Qpyth n f g m0 k r in (Qle_bool (Qabs (x - rate)) tol, x).
 """
@@ -335,13 +385,26 @@ def correspondence(ctx, obs, max_cells_q, max_cells_i, max_goals):
         meta[cid] = o
         ctx.seen(("pyth", o["n"], o["k"], o["r"], o["m0"], o["h"], tuple(o["fre"][:6])))
         ctx.count(f"pyth:n{o['n']}")
+    for o in obs:
+        if o["kind"] != "edge" or "single0" not in o:
+            continue
+        cid = f"e{len(exprs)}"
+        norm = f"(Some {qlit(frac_of_hex(o['norm']))})" if o["norm"] else "None"
+        exprs.append((cid, f"edge0 {o['cols'] * o['rows']} {clist(o['fre'], o['fim'])} {clist(o['gre'], o['gim'])} {norm} {len(o['taus'])}"))
+        meta[cid] = o
     res = run_compute_cases(ctx, "C09", IMPORTS, DEFS, exprs, shards=min(NCPU, max(1, len(exprs) // 3)))
     ctx.cov["obligations"] += len(exprs)
     for cid, _ in exprs:
         o = meta[cid]
+        if o["kind"] == "edge":
+            coq_edge(ctx, o, cid, res.get(cid))
+            continue
         if o["kind"] == "pyth":
             mp = re.match(r"\((true|false), (.*)\)$", res.get(cid) or "")
-            if mp and mp.group(1) == "true":
+            if not mp:
+                unchecked_eval(ctx, "C09", cid)
+                continue
+            if mp.group(1) == "true":
                 ctx.cov["discharged"] += 1
                 continue
             ctx.case_failures.append({"case": cid})
@@ -352,8 +415,7 @@ def correspondence(ctx, obs, max_cells_q, max_cells_i, max_goals):
         m = re.match(r"\((true|false), (true|false), (true|false), (.*)\)$", res.get(cid) or "")
         sq_sym = o["cols"] == o["rows"] and o["xs"] == o["ys"] and o["gkind"] == "transpose"
         if not m:
-            ctx.case_failures.append({"case": cid})
-            ctx.violation("S4", f"model evaluation failed for case {cid}", {"kind": "model_eval"}, dict(arr_input(o), output=res.get(cid)), found_input=False)
+            unchecked_eval(ctx, "C09", cid)     # no output (time limit / crash): an unchecked obligation, not a disagreement
             continue
         if all(m.group(i) == "true" for i in (1, 2, 3)):
             ctx.cov["discharged"] += 1
@@ -364,19 +426,37 @@ def correspondence(ctx, obs, max_cells_q, max_cells_i, max_goals):
                       {"kind": "value", "family": o["family"]}, dict(arr_input(o), tau=0.0, model=m.group(4)), found_input=sq_sym and m.group(2) == "false")
     ires = run_interval_cases(ctx, "C09i", "From SpdVerif Require Import Model.FinSum Model.Hom.\n", goals, setup=ITAC,
                               shards=min(NCPU, max(1, len(goals))))
+    # a goal that coqc did not close is a model/implementation disagreement only when it got a verdict; goals without a verdict are
+    # retried and reported as unchecked obligations by vlib.  The concrete failing input, if any, comes from the S5 recomputation.
     for cid, ok in ires.items():
         if ok or cid not in gmeta:
             continue
         o, j = gmeta[cid]
-        sq_sym = o["cols"] == o["rows"] and o["xs"] == o["ys"] and o["gkind"] == "transpose"
         ctx.case_failures.append({"case": cid})
         ctx.violation("S4", f"real-valued model and hom_rate = {fl(o['singles'][j])!r} disagree beyond {TOLI} at tau={fl(o['taus'][j])!r} ({o['family']}, {o['cols']}x{o['rows']})",
-                      {"kind": "value", "family": o["family"]}, dict(arr_input(o), tau=fl(o["taus"][j]), rate=fl(o["singles"][j]), case=cid), found_input=sq_sym)
+                      {"kind": "value", "family": o["family"]}, dict(arr_input(o), tau=fl(o["taus"][j]), rate=fl(o["singles"][j]), case=cid), found_input=False)
+
+
+def unchecked_eval(ctx, name, cid):
+    """a vm_compute evaluation that printed no result: counted as an unchecked obligation (like vlib's no-verdict goals)"""
+    ctx.cov["unchecked_cases"] = ctx.cov.get("unchecked_cases", 0) + 1
+    tag = (f"Cases/{name}", "no-verdict")
+    for i, f in enumerate(ctx.proof_failures):
+        if (f[0], f[1]) == tag:
+            ctx.proof_failures[i] = (f[0], f[1], f[2] + f", {cid}")
+            return
+    ctx.proof_failures.append((tag[0], tag[1], f"model evaluation(s) without output from coqc (time limit): {cid}"))
+
+
+def unknown_failing(ctx):
+    """a concrete failing input that is NOT a known finding (a known finding firing on the same run must not stop the search)"""
+    fs = load_findings()
+    return any(v["found_input"] and match_finding(v, fs, ctx.prop) is None for v in ctx.violations)
 
 
 def run(ctx):
     binp = build_harness(ctx)
-    msgs, spans = regen(ctx, ["hom", "pm_integrand"])
+    msgs, spans = regen(ctx, ["hom", "pm_integrand", "grid"])
     ctx.cov["translated_spans"] = {k: v for k, v in spans.items() if "hom" in v["file"]}
     for m in msgs:
         ctx.proof_failures.append(("Gen/HomSrc.v", "translator", m))
@@ -393,12 +473,12 @@ def run(ctx):
         correspondence(ctx, obs, 64 if quick else 144, 25 if quick else 36, 32 if quick else 96)
     else:
         ctx.note("correspondence skipped: Model/Hom.v did not compile")
-    if (not proved or ctx.case_failures) and not any(v["found_input"] for v in ctx.violations):
+    if (not proved or ctx.case_failures) and not unknown_failing(ctx):
         ctx.log("S5 deep search for a failing input (obligations broken or model/implementation disagree)")
         for k in range(3):
             obs2 = run_harness(ctx, binp, ["c09", ctx.seed + 7919 * (k + 1), 400, 12, 12, 20])
             oracle(ctx, obs2)
-            if any(v["found_input"] for v in ctx.violations):
+            if unknown_failing(ctx):
                 break
     ctx.cov["rule"] = ("array level: families random / symmetric / antisymmetric / hermitian / separable-with-linear-phase (square grid, identical dyadic "
                        "axes, second array = transpose) and independent / rectangular (second array unrelated, different norm, different axes) with dyadic "
@@ -410,11 +490,15 @@ def run(ctx):
         "exchange-symmetric spectrum: rate 0 at zero delay": "proved (C09_symmetric_zero)",
         "separable x linear phase: function of tau - t0 only, exactly 0 at tau = +t0": "proved (C09_dip_position_partial)",
         "Gaussian closed form 1/2(1 - exp(-sigma^2 (tau-t0)^2/2)), -> 1/2": "validated_only (continuum Fourier integral; checked to 1e-6 on well-sampled grids)",
-        "series = individually computed rates": "proved (C09_series) + measured Rust-vs-Rust (1e-12)",
-        "setup-level = array-level on sampled amplitudes and exchanged-argument counterpart": "proved structurally with the amplitude as an oracle "
-            "(C09_setup_is_array_level, C09_setup_exchanged_is_transpose); measured Rust-vs-Rust (1e-9)",
+        "series = individually computed rates": "validated: the tie is the AST pin of hom_rate_series (generator + C09_source_is_model) and the Rust-vs-Rust comparison "
+            "(1e-12); C09_series itself is definitional on the model (the model's series is defined as that map)",
+        "setup-level = array-level on sampled amplitudes and exchanged-argument counterpart": "validated: AST pin of the wrappers (C09_source_wrappers) + Rust-vs-Rust "
+            "(1e-9); C09_setup_is_array_level is definitional on the model; what IS proved: the exchanged-argument tabulation is the transposed array on a "
+            "square symmetric grid (C09_setup_exchanged_is_transpose), the twin's jsa_range for the generated spectrum (C09_setup_is_array_with_twin), and the grid / "
+            "index model equals the generated one (C09_grid_is_generated)",
         "panic / NaN / infinity paths (short slices, zero norm, empty delay list)": "proved on the total model (C09_total_panic_iff, C09_total_default_norm, "
-            "C09_total_zero_norm, C09_series_total_cases, C09_total_is_model); implementation exercised under catch_unwind and compared with the model's outcome",
+            "C09_total_zero_norm, C09_series_total_cases, C09_total_is_model); implementation exercised under catch_unwind and compared with the Coq model's outcome "
+            "(executable twin by vm_compute at zero delay, C09_total_exec_twin; Python mirror at the other delays)",
         "composition with the generated spectrum model (C06)": "proved (C09_symmetric_setup_dip: exchange-symmetric setups give rate 0 at zero delay for every "
             "quadrature; C09_setup_is_array_with_twin: the second array is the exchanged twin's jsa_range); measured Rust-vs-Rust on 6 setups and their twins",
         "binary64 result vs real model": "validated_only (vm_compute at zero delay and, with Pythagorean phases, at delays m0 atan(4/3)/h, 1e-12; interval goals at other delays 1e-10)"}
